@@ -7,6 +7,7 @@ ROOT=$(cd "$(dirname "$(readlink -f "$0")")/.." && pwd)
 PID=$1; NAME=${2:-$PID}; WT=${WTDIR:-/tmp/wt_$PID}; OUT=/verif/seeded/$NAME
 export CARGO_NET_OFFLINE=true
 mkdir -p $OUT
+if [ -z "${SKIP_CONFIRM:-}" ]; then
 cd $WT || exit 2
 demo=$(ls tests/demo_*.rs | head -1)
 cp patch.diff $OUT/patch.diff; cp $demo $OUT/; cp NOTES.md $OUT/NOTES.md 2>/dev/null
@@ -24,6 +25,21 @@ cargo test --workspace --no-fail-fast --offline >> $log 2>&1; a=$?
 mv /tmp/_demo_$PID.rs $demo
 echo "confirm: suite_with_change_rc=$a demo_with_change_rc=$b demo_without_change_rc=$c" | tee -a $log
 if [ $a -ne 0 ] || [ $b -eq 0 ] || [ $c -ne 0 ]; then echo "NOT CONFIRMED" | tee -a $log; exit 4; fi
+fi   # SKIP_CONFIRM: seeded/<name>/patch.diff already in place (e.g. the revert of a fix: commit)
+if [ -n "${PAR:-}" ]; then
+# PAR=1: the scratch worktree itself (change applied) is the checkout under test; /repo is not touched,
+# so several seeded changes can be evaluated side by side
+cd $ROOT
+export VERIF_REPO=$WT VERIF_OUT=/root/scratch/inst_$NAME
+mkdir -p $VERIF_OUT
+res=$OUT/checks.txt; : > $res
+for p in ${CHECKS:-C01 C02 C03 C04 C05 C06 C07 C08 C09 C10 C11 C12 C13 C14 C15 C16}; do
+  ./check $p --tier quick 2>&1 | grep -v "^KNOWN" | tail -2 | sed "s/^/$p: /" >> $res
+done
+rm -rf $VERIF_OUT
+echo "caught_by=$(grep VIOLATION $res | sed 's/.*property=\(C[0-9]*\).*/\1/' | sort -u | tr '\n' ' ')" | tee -a $res
+exit 0
+fi
 # run the checks against /repo with the change applied (exclusive use of /repo)
 cd $ROOT
 exec 9>/var/lock/verif_repo.lock && flock -x 9
